@@ -3,61 +3,57 @@
 HEAD = 'from harness import C21_retry as H\n'
 
 SWEEP = '''
-def sweep{T}(kind: int, p: int, s: int, depth: int, {RARGS}) -> bool:
+def sweep{T}(kind: int, p: int, s: int, depth: int, jsel: int) -> bool:
     """
-    pre: 0 <= kind < {K} and -2 <= p <= 100000 and 0 <= s < {MAXS} and 0 <= depth <= 2
-    pre: {RPRE}
+    pre: 0 <= kind < {K} and -2 <= p <= 100000 and 0 <= s < {MAXS} and 0 <= depth <= 2 and 0 <= jsel <= 2
     post: _
     """
-    return H.sweep(True, {T}, kind, p, s, depth, [{RLIST}]) == ''
-
+    return H.sweep({T}, kind, p, s, depth, jsel) == ''
 '''
 
 TWIN = '''
-def sweep{T}_reach_{WHAT}(kind: int, p: int, s: int, depth: int, {RARGS}) -> bool:
+def sweep{T}_reach_{WHAT}(kind: int, p: int, s: int, depth: int, jsel: int) -> bool:
     """
-    pre: 0 <= kind < {K} and -2 <= p <= 100000 and 0 <= s < {MAXS} and 0 <= depth <= 2
-    pre: {RPRE}
+    pre: 0 <= kind < {K} and -2 <= p <= 100000 and 0 <= s < {MAXS} and 0 <= depth <= 2 and 0 <= jsel <= 2
     post: _
     """
     # reachability twin: must be REFUTED (failure {T} can be {WHAT})
-    excs = [H.U.TransientError() for _ in range({T} - 1)] + [H.make_exc(kind, p, s, depth)]
-    return H.drive(H.CUT_LOOP, excs, [{RLIST}])[0] != '{WHAT}'
+    return H.drive(H.sweep_excs({T}, kind, p, s, depth), H.jitter_list(jsel, {T}))[0] != '{WHAT}'
 '''
 
 SEQ = '''
-def seq{N}_{K1}({KARGS}{SEP}jmax: int) -> bool:
+def seq{N}_{K1}({KARGS}{SEP}jsel: int) -> bool:
     """
     pre: {KPRE}
-    pre: 0 <= jmax <= 1
+    pre: 0 <= jsel <= 2
     post: _
     """
-    return H.seq(False, {N}, [{KLIST}], [jmax * H.jitter_range(i + 1) for i in range({N})]) == ''
+    return H.seq({N}, [{KLIST}], jsel) == ''
 
 
-def seq{N}_{K1}_reach({KARGS}{SEP}jmax: int) -> bool:
+def seq{N}_{K1}_reach({KARGS}{SEP}jsel: int) -> bool:
     """
     pre: {KPRE}
-    pre: 0 <= jmax <= 1
+    pre: 0 <= jsel <= 2
     post: _
     """
-    # reachability twin: must be REFUTED (some sequence of {N} failures is retried through to success)
-    return H.seq_outcome(False, {N}, [{KLIST}], [jmax * H.jitter_range(i + 1) for i in range({N})]) != 'ok'
+    # reachability twin: must be REFUTED (some sequence of {N} failures starting with this kind ends the way the
+    # oracle's last case does: all retried -> 'ok', or, when the first kind is permanent, 'raised')
+    return H.drive(H.seq_excs({N}, [{KLIST}]), H.jitter_list(jsel, {N}))[0] != '{WHAT}'
 '''
 
 
-def source(ts, seqs, K, MAXS, NREPS, jitter_range):
+def source(ts, seqs, K, MAXS, NREPS):
+    """seqs: list of (n, first_kind, twin_outcome)"""
     out = [HEAD]
     for t in ts:
-        rn = [f'r{i}' for i in range(1, t + 1)]
-        kw = dict(T=t, K=K, MAXS=MAXS, RARGS=', '.join(f'{r}: int' for r in rn), RLIST=', '.join(rn),
-                  RPRE=' and '.join(f'0 <= r{i} <= {jitter_range(i)}' for i in range(1, t + 1)))
+        kw = dict(T=t, K=K, MAXS=MAXS)
         out.append(SWEEP.format(**kw))
         for what in ('ok', 'raised'):
             out.append(TWIN.format(WHAT=what, **kw))
-    for n, k1 in seqs:
+    for n, k1, what in seqs:
         kn = [f'k{i}' for i in range(2, n + 1)]
         out.append(SEQ.format(N=n, K1=k1, KARGS=', '.join(f'{k}: int' for k in kn), SEP=', ' if kn else '',
                               KPRE=' and '.join(f'0 <= {k} < {NREPS}' for k in kn) or 'True',
-                              KLIST=', '.join([str(k1)] + kn)))
+                              KLIST=', '.join([str(k1)] + kn), WHAT=what))
     return '\n'.join(out)
